@@ -50,9 +50,12 @@ fn main() {
             if !uc.is_empty() {
                 c = c.user_context_type(uc);
             }
-            match c.run() {
-                Ok(()) => accepted.push_str(&format!("{name}|{file}\n")),
-                Err(e) => refused.push_str(&format!("{name}|{file}|{}\n", format!("{e:#}").replace('\n', " "))),
+            // a generator that panics on such a grammar must not take the whole build down: it is recorded (and reported by C15)
+            let outcome = std::panic::catch_unwind(std::panic::AssertUnwindSafe(|| c.run()));
+            match outcome {
+                Ok(Ok(())) => accepted.push_str(&format!("{name}|{file}|accepted\n")),
+                Ok(Err(e)) => refused.push_str(&format!("{name}|{file}|{}\n", format!("{e:#}").replace('\n', " "))),
+                Err(_) => accepted.push_str(&format!("{name}|{file}|PANICKED\n")),
             }
         }
     }
